@@ -389,7 +389,7 @@ struct PrngWorld : World {
         f.st.read = flash_read;
         f.st.write = flash_write;
         f.mem = bytes_of(std::max<size_t>(f.st.size, 64), 0xF1A5 ^ salt); // "whatever rubbish was in the region"
-        void *mem = aligned_alloc(64, sizeof(ascon_random_state_t) + 64);
+        void *mem = aalloc(64, sizeof(ascon_random_state_t) + 64);
         memset(mem, dirt, sizeof(ascon_random_state_t) + 64);
         c.ram = (ascon_random_state_t *)((uint8_t *)mem + (dirt & 8 ? 8 : 0));
         int idx = 0;
